@@ -52,6 +52,14 @@ CHECKS = {
              text="All 32 combinations of {NLA, restricted admin, blank credentials, auto logon, password vs hash} x domain/user classes x server selection are executed end to end. The validator checks on the decoded bytes: negotiation request flag = restricted admin; Client Info domain/user/password empty iff restricted admin, auto-logon flag iff requested; TSCredentials (unsealed with keys derived from the wire) empty iff restricted admin or blank credentials, password field empty in hash mode; and every byte the client wrote on the raw transport, in NTLM tokens, in every other TLS message and in the non-password fields of TSCredentials is searched for the UTF-8 and UTF-16LE password.",
              note="Trusted: Java primitives, TLC, OpenSSL. Distinctive passwords make a substring match meaningful.",
              ref="DESIGN.md section 6 C17"),
+ "C08": dict(cat="fault_enumeration", tech="malformed neighbours of TLC-enumerated conformant encodings classified by the TLA+ reference decoders (Rle16.tla, Planar.tla, Pixels.tla via Expect.tla); exhaustive short data strings and grammar-aware random streams judged by the totality rule in the harness",
+             text="Every conformant interleaved-RLE / planar encoding of tiny images enumerated by TLC is mutated (every truncation point, every byte +-1, undefined order codes, header variants, width/height +-1 and 0, all depths, flag flipped); TLC classifies each neighbour (conformant => exact image, otherwise error or exactly w*h*4 bytes), the real BitmapEvent::decompress is run under catch_unwind with a counting allocator. In addition all data strings of length <= 2 for every geometry 0..3 x 0..3 at 16/32 bpp with both flags (4.2 M cases) and 100 k (quick) / 10 M (thorough) grammar-aware random streams.",
+             note="Panics and allocation are observed by the harness (catch_unwind, counting allocator), not by the specification. Dev profile.",
+             ref="DESIGN.md section 6 C08"),
+ "C09": dict(cat="model_checking", tech="TLA+ reference decoders (Rle16.tla as a transition system per compression order, Planar.tla, Pixels.tla); TLC enumerates every conformant encoding of tiny images with the image it denotes (Gen_Codec, Gen_Planar) and computes expected images of random larger encodings (Expect.tla); byte-exact comparison with BitmapEvent::decompress",
+             text="TLC explores the decoder transition system forward: every sequence of conformant orders (all kinds, regular / lite / mega-mega / explicit-run forms, set variants, dithered runs, FG/BG masks, specials) that fills a tiny image is an (encoding, image) pair, 78 k pairs at 16 bpp plus every planar segmentation for tiny images; the stepwise construction is checked against the one-shot decoder (invariant Agree). Random conformant encodings up to 64x16 with all long-run forms, raw bitmaps (row flip) and all 65536 5-6-5 colours are decoded by TLC (Expect.tla). The implementation must return exactly the expected bytes.",
+             note="Trusted: TLC and my transcription of MS-RDPBCGR 2.2.9.1.1.3.1.2.4 / MS-RDPEGDI 2.2.2.5.1. Conformance class stated in the evidence.",
+             ref="DESIGN.md section 6 C09"),
 }
 
 NOT_YET = {
